@@ -11,6 +11,7 @@
                                              (kind ans | dup | ghost)
      uclose{}                                the upstream is about to close the connection(s) of the proxy
      crecv{conn,id,ok,status,htok,btok}      a client read a response frame: id, success?, token in header / in body
+     cclose{conn}                            the client is about to close this connection: its outstanding requests are abandoned
      quiesce{}                               end of the scenario: everything released, all waits over *)
 EXTENDS Integers, Sequences, FiniteSets, TLC, XJudge, VTrace
 
@@ -56,10 +57,14 @@ TCrecv == /\ IsEvent("crecv")
                 /\ unstable' = IF has /\ Ev.ok /\ q.cc = closes THEN FALSE ELSE unstable
           /\ UNCHANGED <<produced, closes>>
 
+TCclose == /\ IsEvent("cclose")
+           /\ open' = [x \in { k \in DOMAIN open : k[1] # Ev.conn } |-> open[x]]
+           /\ UNCHANGED <<done, produced, unstable, closes>>
+
 TQuiesce == /\ IsEvent("quiesce")
             /\ Expect(DOMAIN open = {}, "request-without-reply")
             /\ UNCHANGED tv
 
-TraceNext == TRun \/ TCsend \/ TUrecv \/ TUsend \/ TUclose \/ TCrecv \/ TQuiesce
+TraceNext == TRun \/ TCsend \/ TUrecv \/ TUsend \/ TUclose \/ TCrecv \/ TCclose \/ TQuiesce
 TraceSpec == TraceInit /\ [][TraceNext]_tvars
 ====
